@@ -571,13 +571,19 @@ class C04(Check):
         raise NotImplementedError   # evaluate() builds the lines (two passes)
 
     def canon(self, obs):
+        # The paths opened are JUDGED by the checker (confined / file_mode_single_file / serves_the_named_file see the
+        # full list in the line sent to the driver) but not COMPARED between model and code: whether the code attempts
+        # an open for something it then answers not-found for (a directory, a path below a file) or finds that out
+        # before opening is a don't-care, and with a template cache it depends on the history.
         if isinstance(obs, HistObs):
-            # with the cache, whether a request opens its file depends on the history: the opened paths are judged
-            # (confined) but not compared
-            if getattr(obs, "cached", True):
-                return [deep_sxstr([o[0], o[1], [], o[3], o[4]]) for o in obs]
-            return [deep_sxstr(list(o)) for o in obs]
-        return deep_sxstr(obs)
+            return [deep_sxstr([o[0], o[1], [], o[3], o[4]]) for o in obs]
+        return deep_sxstr([obs[0], obs[1], [], obs[3], obs[4]])
+
+    @staticmethod
+    def blank_opened(mobs):
+        if isinstance(mobs, list) and len(mobs) > 2:
+            mobs[2] = []
+        return mobs
 
     def evaluate(self, cases):
         self.tree()
@@ -599,7 +605,7 @@ class C04(Check):
                 if c["cfg"].get("target_literal") and isinstance(r[0], list) and len(r[0]) > 2:
                     mo = [x.decode("latin-1") if isinstance(x, bytes) else "".join(map(chr, x)) for x in r[0][2]]
                     r[0][2] = deep_sxstr(self.same_file_as(mo, w))
-                out[i] = (c, o, r[0], names(r[1]), names(r[2]), r[3:])
+                out[i] = (c, o, self.blank_opened(r[0]), names(r[1]), names(r[2]), r[3:])
         hist = [(i, c) for i, c in enumerate(cases) if "hist" in c]
         if hist:
             for (i, _), r in zip(hist, self.eval_histories([c for _, c in hist])):
@@ -715,7 +721,7 @@ class C04(Check):
             covered = 1       # a history is within the theorem's hypotheses iff every step is
             for ln, r in zip(lines[pos:pos + len(steps)], outs[pos:pos + len(steps)]):
                 r = self.parse_out(ln, r)
-                m.append(r[0])
+                m.append(self.blank_opened(r[0]))
                 if len(r) < 5 or r[4] != 1:
                     covered = 0
                 fm.extend(x for x in names(r[1]) if x not in fm)
@@ -755,7 +761,9 @@ class C04(Check):
                     injected = None
                     if pending is not None and op == "R":
                         # errno faults stand for errors of an object that exists; swaps need a regular file to start from
-                        ok = os.path.lexists(fabs) if pending in ERRNO_FAULTS else os.path.isfile(fabs)
+                        # EACCES stands for an object that exists (on a directory: the Windows-like case the code
+                        # handles); EIO / ELOOP only for a regular file - a handler need not open anything else at all
+                        ok = os.path.lexists(fabs) if pending == "EACCES" else os.path.isfile(fabs)
                         before = None
                         if ok:
                             _FAULT["armed"] = {"path": fabs, "kind": pending}
